@@ -320,3 +320,32 @@ def pick(x, lo, hi):
         else:
             lo = mid + 1
     return lo
+
+
+class _UntracedRe:
+    """the real `re`, but patterns are compiled outside CrossHair's tracing (the pure-Python regex
+    compiler would otherwise be executed symbolically, instruction by instruction)"""
+
+    def __getattr__(self, name):
+        return getattr(_real_re, name)
+
+    def compile(self, p, flags=0):
+        if tracing():
+            from crosshair.tracers import NoTracing
+            with NoTracing():
+                return _real_re.compile(p, flags)
+        return _real_re.compile(p, flags)
+
+
+class untraced_re:
+    """with untraced_re(): pexpect.spawnbase.re compiles natively (for harnesses whose text is concrete)"""
+
+    def __enter__(self):
+        import pexpect.spawnbase as SB
+        self.SB, self.old = SB, SB.re
+        SB.re = _UntracedRe()
+        return self
+
+    def __exit__(self, *a):
+        self.SB.re = self.old
+        return False
